@@ -36,7 +36,7 @@ LEVEL_TEXT = (
 
 
 def budget(tier):
-    return 12 if tier == "quick" else 200
+    return 16 if tier == "quick" else 250
 
 
 def wall_guard(tier):
